@@ -189,8 +189,121 @@ func genSrcWrite(rng *hx.Rng, prefix string, nsets int) string {
 	}
 }
 
+// elemScales: the real elements of a DerivedSet / SubtractReactive case are x*scale+off for the model's x in 0..15.
+var elemScales = []string{"x1+4096", "x4096", "x4097+-5", "x65536+1", "x-1", "x-65537", "x1048576", "x1099511627776+3", "x288230376151711744"}
+
+func newLine(rng *hx.Rng, prefix string) string {
+	if rng.Chance(1, 4) {
+		return prefix + " new " + hx.Pick(rng, elemScales)
+	}
+
+	return prefix + " new"
+}
+
+// rangeList is "a,a+1,…,b-1".
+func rangeList(a, b int) string {
+	xs := make([]int, 0, b-a)
+	for x := a; x < b; x++ {
+		xs = append(xs, x)
+	}
+
+	return joinInts(xs)
+}
+
+func repeatList(xs []int, n int) []int {
+	out := make([]int, 0, n)
+	for len(out) < n {
+		out = append(out, xs[len(out)%len(xs)])
+	}
+
+	return out
+}
+
+// sizes around the places where a container or a counter may change its strategy or its width
+var bigSizes = []int{255, 256, 257, 300, 1000, 4095, 4096, 4097, 5000}
+
+// genBig: one case per construct in which a size parameter is large — a DerivedSet with hundreds / thousands of
+// subscriptions (occurrence counts beyond 255 / 4096), a SubtractReactive with as many subtracted sets, a Counter with as
+// many monitors, a SortedSet and a WaitGroup with as many elements — and values of every magnitude.
+func genBig(rng *hx.Rng, kind int) []string {
+	k := hx.Pick(rng, bigSizes)
+	var ops []string
+	switch kind % 5 {
+	case 0:
+		ops = []string{newLine(rng, "ds"), "ds add 0 1", "ds add 1 2", "ds add 1 3"}
+		ops = append(ops, "ds inherit "+joinInts(repeatList([]int{0, 1, 0}, k)))
+		for i := 0; i < 6; i++ {
+			ops = append(ops, genSrcWrite(rng, "ds", 3))
+		}
+		members := make([]int, k)
+		for i := range members {
+			members[i] = i
+		}
+		ops = append(ops, "ds inherit 1,2", "ds unsub "+joinInts(members))
+		for i := 0; i < 5; i++ {
+			ops = append(ops, genSrcWrite(rng, "ds", 3))
+		}
+		ops = append(ops, fmt.Sprintf("ds unsub %d,%d", k, k+1), "ds add 1 7")
+	case 1:
+		ops = []string{newLine(rng, "sr"), "sr apply 0 1,2,3,4,5 -", "sr add 1 2", "sr add 2 3"}
+		ops = append(ops, "sr create 0 "+joinInts(repeatList([]int{1, 2, 1, 3}, k)))
+		for i := 0; i < 14; i++ {
+			ops = append(ops, genSrcWrite(rng, "sr", 4))
+		}
+	case 2:
+		ops = []string{"ct new " + hx.Pick(rng, []string{"nonzero", "gt2", "even"}), "ct mon 0", fmt.Sprintf("ct set 1 %d", bigValue(rng)), fmt.Sprintf("ct monmany 1 %d", k)}
+		unmonitored := map[int]bool{}
+		for i := 0; i < 10; i++ {
+			switch rng.Intn(4) {
+			case 0:
+				if j := rng.Intn(k + 1); !unmonitored[j] { // an unsubscribe function is called at most once
+					unmonitored[j] = true
+					ops = append(ops, fmt.Sprintf("ct unmon %d", j))
+				}
+			case 1:
+				ops = append(ops, fmt.Sprintf("ct monmany %d %d", rng.Intn(2), rng.Range(1, 300)))
+			default:
+				ops = append(ops, fmt.Sprintf("ct set %d %d", rng.Intn(2), bigValue(rng)))
+			}
+		}
+	case 3:
+		ops = []string{"ss new " + hx.Pick(rng, []string{"plain", "less"})}
+		base := hx.Pick(rng, []int{1, 1, 4096, 1 << 20, 1 << 40})
+		for i := 0; i < 6; i++ {
+			ops = append(ops, fmt.Sprintf("ss w %d %d", base+rng.Intn(k), bigValue(rng)))
+		}
+		ops = append(ops, fmt.Sprintf("ss apply %s -", rangeList(base, base+k)))
+		for i := 0; i < 8; i++ {
+			switch rng.Intn(5) {
+			case 0:
+				ops = append(ops, fmt.Sprintf("ss del %d", base+rng.Intn(k)))
+			case 1:
+				ops = append(ops, fmt.Sprintf("ss add %d", base+k+rng.Intn(3)))
+			default:
+				ops = append(ops, fmt.Sprintf("ss w %d %d", base+rng.Intn(k), bigValue(rng)))
+			}
+		}
+		ops = append(ops, fmt.Sprintf("ss apply - %s", rangeList(base+1, base+k)))
+	default:
+		base := hx.Pick(rng, []int{1, 16, 4096, 1 << 20, 1 << 40, 1 << 62})
+		ops = []string{"wg new " + rangeList(base, base+k), "wg add " + rangeList(base, base+k), "wg done " + rangeList(base, base+k/2),
+			"wg add " + rangeList(base+k/2-1, base+k/2+2), "wg done " + rangeList(base+k/2-1, base+k-1), "wg add " + joinInts([]int{base + k - 1, base + k - 1}),
+			"wg done " + joinInts([]int{base + k - 1, base + k - 1}), "wg done " + joinInts([]int{base + k - 1}), "wg add 3", "wg done 3"}
+	}
+
+	return ops
+}
+
+// bigValue: input values / weights of every magnitude and sign.
+func bigValue(rng *hx.Rng) int {
+	vals := []int{0, 1, 2, 3, 4, -1, 255, 256, 4095, 4096, 4097, 65535, 65536, -65536, 1 << 31, 1<<31 - 1, -(1 << 31), 1 << 32, 1 << 40,
+		1<<62 + 1, 1<<63 - 1, -(1 << 63), -(1 << 63) + 1}
+
+	return hx.Pick(rng, vals)
+}
+
 func genDS(rng *hx.Rng, n int) []string {
-	ops := []string{"ds new"}
+	ops := []string{newLine(rng, "ds")}
 	type group struct {
 		members []int
 		live    bool
@@ -233,7 +346,7 @@ func genDS(rng *hx.Rng, n int) []string {
 }
 
 func genSR(rng *hx.Rng, n int) []string {
-	ops := []string{"sr new"}
+	ops := []string{newLine(rng, "sr")}
 	createAt := rng.Intn(8)
 	for len(ops) < n {
 		if len(ops) == createAt+1 {
@@ -266,7 +379,11 @@ func genCT(rng *hx.Rng, n int) []string {
 			ops = append(ops, fmt.Sprintf("ct unmon %d", live[k]))
 			live = append(live[:k], live[k+1:]...)
 		default:
-			ops = append(ops, fmt.Sprintf("ct set %d %d", rng.Intn(4), rng.Range(-1, 4)))
+			v := rng.Range(-1, 4)
+			if rng.Chance(1, 8) {
+				v = bigValue(rng)
+			}
+			ops = append(ops, fmt.Sprintf("ct set %d %d", rng.Intn(4), v))
 		}
 	}
 
@@ -284,7 +401,11 @@ func genSS(rng *hx.Rng, n int) []string {
 		case x < 54:
 			ops = append(ops, fmt.Sprintf("ss apply %s %s", joinInts(shuffled(rng, randomSubset(rng))), joinInts(shuffled(rng, randomSubset(rng)))))
 		default:
-			ops = append(ops, fmt.Sprintf("ss w %d %d", rng.Range(1, 6), rng.Range(-2, 4)))
+			v := rng.Range(-2, 4)
+			if rng.Chance(1, 8) {
+				v = bigValue(rng)
+			}
+			ops = append(ops, fmt.Sprintf("ss w %d %d", rng.Range(1, 6), v))
 		}
 	}
 
@@ -416,6 +537,12 @@ func main() {
 	for i := 0; i < nseq; i++ {
 		rng, sub := r.Rng.Fork()
 		runCase(r, sub, gens[i%len(gens)](rng, rng.Range(25, 40)))
+	}
+	// size cases: few (they are long), every construct in turn
+	for i := 0; i < 10*r.Scale; i++ {
+		rng, sub := r.Rng.Fork()
+		runCase(r, sub, genBig(rng, i))
+		r.Count("size-case")
 	}
 	kinds := []string{"dvar", "dvar", "inherit", "dset", "sub", "counter", "sorted", "sorted", "sortedrace", "evict", "evictsame", "wg"}
 	nstress := 150 * r.Scale
